@@ -36,18 +36,19 @@ type ProgSpec struct {
 
 // Kernel is one generated kernel with its launch.
 type Kernel struct {
-	CO      *insts.KernelCodeObject
-	L       Launch
-	OStr    int
-	IStr    int
-	IShift  int
-	InFrom  int // -1: the IN buffer; j: output buffer of kernel j
-	OutTo   int // -1: a buffer of its own; j: the output buffer of kernel j (overwritten)
-	Consts  [10]uint32
-	NInst   int
-	NMem    int
-	Feat    []string
-	Listing []string
+	CO       *insts.KernelCodeObject
+	L        Launch
+	OStr     int
+	IStr     int
+	IShift   int
+	InFrom   int // -1: the IN buffer; j: output buffer of kernel j
+	OutTo    int // -1: a buffer of its own; j: the output buffer of kernel j (overwritten)
+	Consts   [10]uint32
+	NInst    int
+	NMem     int
+	DeclVGPR int
+	Feat     []string
+	Listing  []string
 }
 
 // Program is a generated program.
@@ -75,7 +76,7 @@ var allFeatures = []string{
 }
 
 // features that exist only for one architecture
-var cdna3Only = []string{"saddr", "goffset", "v5_ids_yz"}
+var cdna3Only = []string{"saddr", "goffset", "v5_ids_yz", "vgpr_pressure"}
 
 // probe-only features (never drawn by seeded programs): ABI flags whose
 // register layout DESIGN suspects to differ, s_getpc_b64, SADDR = s[0:1]
@@ -1039,7 +1040,7 @@ func BuildProgram(spec ProgSpec) (prog *Program, err error) {
 		if e != nil {
 			return nil, e
 		}
-		kn := &Kernel{CO: co, L: geo, OStr: 192, IStr: 64, InFrom: -1, OutTo: -1, NInst: k.p.Len()}
+		kn := &Kernel{CO: co, L: geo, OStr: 192, IStr: 64, InFrom: -1, OutTo: -1, NInst: k.p.Len(), DeclVGPR: nVGPR}
 		for f := range force {
 			kn.Feat = append(kn.Feat, f)
 		}
@@ -1118,6 +1119,15 @@ func BuildProgram(spec ProgSpec) (prog *Program, err error) {
 		}
 		k := newKB(arch, spec.Arch == "cdna3", geo, abi, oStr, iStr, iShift)
 		k.rev = chain && ki > 0
+		if allow["vgpr_pressure"] && (force["vgpr_pressure"] || r.Chance(1, 6)) {
+			// the mi300a advertises 512 VGPRs per lane: declare a large register
+			// budget (the code uses the same registers)
+			k.declVGPR = pick(r, []int{96, 128})
+			if force["vgpr_pressure"] {
+				k.declVGPR = 96
+			}
+			x.use("vgpr_pressure")
+		}
 		x.k = k
 		k.prologue()
 		k.initTemps(r.Uint64())
@@ -1278,7 +1288,7 @@ func BuildProgram(spec ProgSpec) (prog *Program, err error) {
 		if e != nil {
 			return nil, e
 		}
-		kn := &Kernel{CO: co, L: geo, OStr: oStr, IStr: iStr, IShift: iShift, InFrom: inFrom, OutTo: outTo, NInst: k.p.Len(), NMem: k.nMem}
+		kn := &Kernel{CO: co, L: geo, OStr: oStr, IStr: iStr, IShift: iShift, InFrom: inFrom, OutTo: outTo, NInst: k.p.Len(), NMem: k.nMem, DeclVGPR: max(nVGPR, k.declVGPR)}
 		for i := range kn.Consts {
 			kn.Consts[i] = r.Uint32()
 		}
